@@ -28,6 +28,9 @@ W_NEXT = {"started": "wBegin", "copied": "wRun", "ran": "wPublish", "published":
 MODE = os.environ.get("C13_MODEL_MODE", "fixed")  # "asWritten" only to validate that instance against upstream code
 
 
+MUT_LABELS = ("set", "del", "inv")   # labels of the store itself: no operation id
+
+
 class Mirror:
     def __init__(self):
         self.changed = False
@@ -69,6 +72,10 @@ class Mirror:
             self.store.pop(lab[1], None)
             self.gen += 1
             self.changed = True
+            return True
+        if name == "inv":
+            # PageDatabase.invalidate(): a new generation of the same pages
+            self.gen += 1
             return True
         r = lab[1]
         if name == "cEnter":
@@ -252,6 +259,9 @@ def random_schedule(rng, search=False):
                 version += 1
                 k = rng.randrange(KEYS)
                 l = ["del", k] if rng.random() < 0.2 else ["set", k, version]
+                if MODE == "fixed" and rng.random() < 0.25:
+                    # something the postprocessor reads besides the pages changes (facets.toml): Project.update -> invalidate()
+                    l = ["inv"]
                 if nthreads:
                     last_of_thread[choice[1]] = None
             else:
@@ -408,6 +418,8 @@ class Replay:
         self.db.worker._WorkerLauncher__cancel = self.event
         self.truth = [[]]
         self.store = {}
+        self.ext = 0              # what the postprocessor reads besides the pages (bumped before every invalidate())
+        self.ext_at_issue = {}
         self.clients = {}
         self.queues = {}
         self.t_start = {}
@@ -427,16 +439,24 @@ class Replay:
 
         class GatedPostprocessor:
             def run(self, pages, token):
+                ext_seen = rp.ext      # read when the run starts, outside every lock - like facets.toml
                 if token.is_set():
                     rp.cancelled_runs.append(rid)
                     rp.s.park(("cancelled",))
                     raise rp.util.CancelledException()
                 rp.returned_runs.append(rid)
-                return rp.PostprocessorResult(pages, {"origin": rid}, {}, rp.TargetDatabase())
+                return rp.PostprocessorResult(pages, {"origin": rid, "ext": ext_seen}, {}, rp.TargetDatabase())
 
         return GatedPostprocessor
 
     def mutation(self, lab):
+        def fn_inv():
+            self.ext += 1
+            self.db.invalidate()
+            self.truth.append(sorted([a, b] for a, b in self.store.items()))
+        if lab[0] == "inv":
+            return fn_inv
+
         def fn():
             k = lab[1]
             if lab[0] == "set":
@@ -463,7 +483,8 @@ class Replay:
         if exc is not None:
             self.outcomes[r] = "cancelled" if isinstance(exc, self.util.CancelledException) else {"exc": type(exc).__name__}
         else:
-            self.outcomes[r] = {"ok": versions_of(res.pages), "origin": res.metadata.get("origin")}
+            self.outcomes[r] = {"ok": versions_of(res.pages), "origin": res.metadata.get("origin"), "ext": res.metadata.get("ext"),
+                                "ext_at_issue": self.ext_at_issue.get(r)}
         self.t_ret[r] = len(self.truth) - 1
 
     def land_pending(self, blocked_expected):
@@ -488,13 +509,14 @@ class Replay:
     def exec_label(self, i, lab, inj_muts):
         name = lab[0]
         s = self.s
-        if name in ("set", "del"):
+        if name in MUT_LABELS:
             ts = s.spawn(f"m{i}", "mut", self.mutation(lab))
             return ts.status()
         r = lab[1]
         if name == "cEnter":
             self.is_req[r] = lab[2]
             self.t_start[r] = len(self.truth) - 1
+            self.ext_at_issue[r] = self.ext
             if lab[2]:
                 def fn(r=r):
                     self.queues[r] = self.db.flush(self.factory(r))
@@ -992,12 +1014,12 @@ class C13(core.PropertyCheck):
     def _shrink_candidates(self, case):
         labels = case["labels"]
         inj = case.get("inject")
-        ops = sorted({l[1] for l in labels if l[0] not in ("set", "del")}, reverse=True)
+        ops = sorted({l[1] for l in labels if l[0] not in MUT_LABELS}, reverse=True)
         if not ops:
             return
         # the epilogue (last operation) is re-created by normalise()
         epi = ops[0]
-        base = [i for i, l in enumerate(labels) if l[0] in ("set", "del") or l[1] != epi]
+        base = [i for i, l in enumerate(labels) if l[0] in MUT_LABELS or l[1] != epi]
         if inj and labels[inj["at"]][1] == epi:
             inj = None
         protected = set(range(inj["at"], inj["at"] + inj["n"] + 1)) if inj else set()
@@ -1008,9 +1030,9 @@ class C13(core.PropertyCheck):
         for r in ops[1:]:  # drop one operation (all its labels)
             if inj and labels[inj["at"]][1] == r:
                 continue
-            yield cand([i for i in base if labels[i][0] in ("set", "del") or labels[i][1] != r])
+            yield cand([i for i in base if labels[i][0] in MUT_LABELS or labels[i][1] != r])
         for i in base:  # drop one mutation
-            if labels[i][0] in ("set", "del") and i not in protected:
+            if labels[i][0] in MUT_LABELS and i not in protected:
                 yield cand([j for j in base if j != i])
         if inj and inj["n"] > 1:
             for d in range(1, inj["n"] + 1):
@@ -1055,7 +1077,7 @@ class C13(core.PropertyCheck):
         for i, (lab, ph) in enumerate(zip(labels, model["trace"])):
             if i >= len(impl["obs"]):
                 return f"implementation stopped before label {i} {lab}: leftover {impl['leftover']}"
-            if lab[0] in ("set", "del"):
+            if lab[0] in MUT_LABELS:
                 want = ("done",)
             else:
                 want = expected_status(lab, ph, is_req[lab[1]])
@@ -1089,6 +1111,9 @@ class C13(core.PropertyCheck):
             if "exc" in out:
                 return f"request-failed:{out['exc']}: request {r} raised instead of returning a snapshot"
             t0, t1 = impl["t_start"][r], impl["t_ret"].get(r, len(truth) - 1)
+            if out.get("ext") is not None and out.get("ext_at_issue") is not None and out["ext"] < out["ext_at_issue"]:
+                return (f"stale-result: request {r} was issued after invalidation number {out['ext_at_issue']} had completed but returned a result "
+                        f"computed when only {out['ext']} had happened (what the postprocessor reads besides the pages was older)")
             if out["ok"] in truth[t0:t1 + 1]:
                 continue
             if out["ok"] in truth[:t0]:
@@ -1123,13 +1148,18 @@ class C13(core.PropertyCheck):
                 inflight.add(l[1])
             elif l[0] == "wRet":
                 inflight.discard(l[1])
-            elif l[0] in ("set", "del") and inflight:
+            elif l[0] in MUT_LABELS and inflight:
                 hit = True
         return json.dumps(labels) if hit else None
 
     def branch_tags(self, case, model, impl):
         tags = [case.get("kind", "corpus")]
         tags.append("src:" + case.get("src", "same"))
+        if any(l[0] == "inv" for l in case.get("labels", [])):
+            tags.append("invalidate")
+            labs = case["labels"]
+            if any(l[0] == "inv" and any(x[0] == "wBegin" for x in labs[:i]) and any(x[0] == "wPublish" for x in labs[i:]) for i, l in enumerate(labs)):
+                tags.append("invalidate-between-copy-and-publish-of-some-run")
         if impl.get("free"):
             if case.get("preempt"):
                 tags.append("free:one-preemption")
@@ -1180,7 +1210,7 @@ def normalise(labels, inject=None):
         l = list(labels[i])
         is_inj = inject is not None and inject["at"] == i
         i += 1
-        if l[0] not in ("set", "del"):
+        if l[0] not in MUT_LABELS:
             if l[0] == "cEnter":
                 ren[l[1]] = len(m.ops)
             if l[1] not in ren:
